@@ -1,5 +1,5 @@
 (* C19 — text from the spec never turns into code (template-splice clause + inventory).  Statements only. *)
-From OAS Require Import Lib.Str Model.Path Model.Splice Proof.Splice Proof.Server Model.DocLines Proof.DocLines.
+From OAS Require Import Lib.Str Model.Path Model.Splice Proof.Splice Proof.Server Model.DocLines Proof.DocLines Proof.DocTokens.
 Local Open Scope list_scope.
 
 (* Display of value enums: whatever the enum value contains, the emitted template prints exactly the value *)
@@ -28,6 +28,18 @@ Proof. exact phys_lines_no_break. Qed.
 Theorem C19_doc_phys_lines_content : forall stored, sconcat (phys_lines stored) = sfilter (fun c => negb (is_break c)) stored.
 Proof. exact phys_lines_content. Qed.
 
+(* Documentation::to_tokens for ANY stored lines (summary, description, `* Path:` line with the spec's path,
+   "<status>: <response description>", pushed lines): every emitted `#[doc]` line is free of line breaks and
+   the emitted lines, concatenated, are the stored text with nothing but line breaks removed *)
+Theorem C19_doc_tokens_single : forall stored, Forall (fun l => no_break l = true) (flat_map phys_lines stored).
+Proof. exact emitted_no_break. Qed.
+
+Theorem C19_doc_tokens_content : forall stored,
+  sconcat (flat_map phys_lines stored) = sfilter (fun c => negb (is_break c)) (sconcat stored).
+Proof. exact emitted_content. Qed.
+
+Check C19_doc_tokens_single : forall stored, Forall (fun l => no_break l = true) (flat_map phys_lines stored).
+
 Check C19_doc_lines_single : forall text, Forall (fun l => no_break l = true) (rust_lines (normalize_line_breaks text)).
 Check C19_doc_phys_lines_content : forall stored, sconcat (phys_lines stored) = sfilter (fun c => negb (is_break c)) stored.
 
@@ -52,3 +64,5 @@ Print Assumptions C19_mixed_path.
 Print Assumptions C19_doc_lines_single.
 Print Assumptions C19_doc_phys_lines_single.
 Print Assumptions C19_doc_phys_lines_content.
+Print Assumptions C19_doc_tokens_single.
+Print Assumptions C19_doc_tokens_content.
